@@ -141,7 +141,12 @@ def write_xlsx(model, path=None) -> str:
     wb = openpyxl.Workbook()
     wb.remove(wb.active)
     raw = {}
+    charts = []
     for sh in model['sheets']:
+        if sh.get('chart'):
+            # a chart sheet: it has a title and a place among the tabs, but no cells
+            charts.append(wb.create_chartsheet(sh['title']))
+            continue
         ws = wb.create_sheet(sh['title'])
         for addr, v in sh['cells'].items():
             if v is None:
@@ -157,6 +162,12 @@ def write_xlsx(model, path=None) -> str:
         if sh.get('dimension'):
             # a stale / understated <dimension> record (other writers leave such records behind): readers must not trust it
             ws.calculate_dimension = (lambda d: (lambda *a, **k: d))(sh['dimension'])
+    for cs in charts:
+        # a chart sheet without a chart is a file that openpyxl itself cannot read back
+        from openpyxl.chart import BarChart, Reference
+        chart = BarChart()
+        chart.add_data(Reference(wb.worksheets[0], min_col=1, min_row=1, max_col=1, max_row=2))
+        cs.add_chart(chart)
     wb.save(path)
     if raw:
         import zipfile
